@@ -406,7 +406,9 @@ def run(c):
         "(extract_results() vs the three files, and the files against each other).  Interpolation of variables with "
         "their own coarser grid onto the export rows is C19's theorem, not repeated here.  Corpus: F15 (witness "
         "theorem), F45, F46 inputs are ordinary cases.")
-    c.prove()
+    from .translate_c12 import gen_io_axis
+
+    c.prove(extra=gen_io_axis(c))  # + the time-axis kernels translated from the source
     stream_io(c, c.n(250, 8000))
     tmp = tempfile.mkdtemp(prefix="c12_")
     try:
